@@ -8,6 +8,7 @@
 package dbft
 
 //@ singleton DBFT
+//@ option freshalloc
 //@ receiver Context = Context.
 //@ receiver Config = Config.
 //@ receiver rtt = Context.rttEstimates.
@@ -120,6 +121,16 @@ package dbft
 //@ pred inboxOK(b) = b != nil && !isnil(b.prepare) && !isnil(b.chViews) && !isnil(b.preCommit) && !isnil(b.commit)
 //@      && forall(k, implies(has(b.prepare, k), b.prepare[k] != nil)) && forall(k, implies(has(b.chViews, k), b.chViews[k] != nil))
 //@      && forall(k, implies(has(b.preCommit, k), b.preCommit[k] != nil)) && forall(k, implies(has(b.commit, k), b.commit[k] != nil))
+// the payload sits in the inbox of its height, in the table of its kind, under its sender
+//@ pred cached(m) = has(self.cache.mail, m.Height())
+//@      && implies(m.Type() == PrepareRequestType || m.Type() == PrepareResponseType, has(self.cache.mail[m.Height()].prepare, m.ValidatorIndex()) && self.cache.mail[m.Height()].prepare[m.ValidatorIndex()] == m)
+//@      && implies(m.Type() == ChangeViewType, has(self.cache.mail[m.Height()].chViews, m.ValidatorIndex()) && self.cache.mail[m.Height()].chViews[m.ValidatorIndex()] == m)
+//@      && implies(m.Type() == PreCommitType, has(self.cache.mail[m.Height()].preCommit, m.ValidatorIndex()) && self.cache.mail[m.Height()].preCommit[m.ValidatorIndex()] == m)
+//@      && implies(m.Type() == CommitType, has(self.cache.mail[m.Height()].commit, m.ValidatorIndex()) && self.cache.mail[m.Height()].commit[m.ValidatorIndex()] == m)
+// C11: what the node noted about a sender being alive only moves forward (height first, then view)
+//@ pred seenMono() = forall(i, 0, NN(), implies(i != self.MyIndex && old(self.LastSeenMessage[i]) != nil && old(self.LastSeenMessage[i].Height) == self.BlockIndex,
+//@        self.LastSeenMessage[i] != nil && self.LastSeenMessage[i].Height == self.BlockIndex && self.LastSeenMessage[i].View >= old(self.LastSeenMessage[i].View)))
+//@ pred cacheSame() = unchanged(self.cache.mail) && forallOf(inbox, b, unchanged(b.prepare, b.chViews, b.preCommit, b.commit))
 //@ pred cacheOK() = !isnil(self.cache.mail) && forall(h, implies(has(self.cache.mail, h), inboxOK(self.cache.mail[h])))
 //@ pred heapMono() = forallOf(inbox, b, implies(old(inboxOK(b)), inboxOK(b)))
 //@ pred base() = cfgOK() && cacheOK() && 0 <= self.rttEstimates.idx && self.rttEstimates.idx < 70
@@ -349,6 +360,7 @@ package dbft
 //@   ensures  @arms gTimerArms >= old(gTimerArms) && gBroadcasts >= old(gBroadcasts)
 //@   ensures  [C05] @decidedStays implies(old(self.blockProcessed), self.blockProcessed)
 //@   ensures  [C05,C07] @handedOver handedOver()
+//@   ensures  [C11] @seenMono seenMono()
 //@   ensures  [C05] @cacheKeptPurged implies(old(cachePurged()), cachePurged())
 //@   ensures  [C12] @txKept implies(self.ViewNumber == old(self.ViewNumber), forallOf(Transaction, t, implies(old(has(self.Transactions, t.Hash())), has(self.Transactions, t.Hash()))))
 //@   ensures  @heap heapMono()
@@ -362,6 +374,7 @@ package dbft
 //@   ensures [C05] @cacheKeptPurged implies(old(cachePurged()), cachePurged())
 //@   ensures [C05] @decidedStays implies(old(self.blockProcessed), self.blockProcessed)
 //@   ensures [C05,C07] @handedOver handedOver()
+//@   ensures [C11] @seenMono seenMono()
 //@   ensures [C12] @txKept implies(self.ViewNumber == old(self.ViewNumber), forallOf(Transaction, t, implies(old(has(self.Transactions, t.Hash())), has(self.Transactions, t.Hash()))))
 //@   ensures  [C03] @lock implies(old(locked()), self.ViewNumber == old(self.ViewNumber) && implies(old(gCommit) != nil, gCommit == old(gCommit)) && implies(old(gPreCommit) != nil, gPreCommit == old(gPreCommit)))
 //@   ensures  [C03] @sameViewSameWord implies(self.ViewNumber == old(self.ViewNumber) && old(gPrep) != nil, gPrep == old(gPrep))
@@ -465,6 +478,7 @@ package dbft
 //@        && implies(self.Config.MaxTimePerBlock != nil, self.maxTimePerBlock == gMaxTimePerBlock) && tip() && self.MyIndex == first(self.Config.GetKeyPair(self.Validators)))
 //@   ensures [C16,C05] @unsubscribed !self.txSubscriptionOn
 //@   ensures [C15,C05] @base self.lastBlockTimestamp == ts
+//@   ensures [C11] @seenMono implies(view > 0, seenMono())
 //@   ensures [C05,C07,C03,C11] @keptWithinHeight implies(view > 0, sameHeight() && unchanged(self.CommitPayloads, self.PreCommitPayloads, self.preBlockProcessed, self.blockProcessed))
 //@   ensures [C05,C04,C02,C03,C11] @tablesCleared forall(i, 0, NN(), self.PreparationPayloads[i] == nil && self.ChangeViewPayloads[i] == nil) && implies(view == 0, forall(i, 0, NN(), self.CommitPayloads[i] == nil && self.PreCommitPayloads[i] == nil))
 //@   ghost gPrep = nil
@@ -751,6 +765,7 @@ package dbft
 //@   ensures self.ViewNumber >= view
 //@   ensures implies(view > 0, sameHeight())
 //@   ensures [C05,C07] @handedOver implies(view > 0, handedOver())
+//@   ensures [C11] @seenMono implies(view > 0, seenMono())
 //@   ensures [C15] @sameBase self.lastBlockTimestamp == ts
 //@   ensures @heap heapMono()
 //@   ensures [C10] @timer implies(aview(), timerOK())
@@ -767,21 +782,25 @@ package dbft
 //@   loop 1: invariant self.ViewNumber >= view && implies(view > 0, sameHeight()) && heapMono() && inboxOK(msgs) && gTimerArms >= old(gTimerArms) && gBroadcasts >= old(gBroadcasts)
 //@   loop 1: invariant [C15] @sameBase self.lastBlockTimestamp == ts
 //@   loop 1: invariant [C05,C07] @handedOver implies(view > 0, handedOver())
+//@   loop 1: invariant [C11] @seenMono implies(view > 0, seenMono())
 //@   loop 1: invariant [C05] @cachePurged implies(view == 0, cachePurged()) && implies(old(cachePurged()), cachePurged())
 //@   loop 2: use INV
 //@   loop 2: invariant self.ViewNumber >= view && implies(view > 0, sameHeight()) && heapMono() && inboxOK(msgs) && gTimerArms >= old(gTimerArms) && gBroadcasts >= old(gBroadcasts)
 //@   loop 2: invariant [C15] @sameBase self.lastBlockTimestamp == ts
 //@   loop 2: invariant [C05,C07] @handedOver implies(view > 0, handedOver())
+//@   loop 2: invariant [C11] @seenMono implies(view > 0, seenMono())
 //@   loop 2: invariant [C05] @cachePurged implies(view == 0, cachePurged()) && implies(old(cachePurged()), cachePurged())
 //@   loop 3: use INV
 //@   loop 3: invariant self.ViewNumber >= view && implies(view > 0, sameHeight()) && heapMono() && inboxOK(msgs) && gTimerArms >= old(gTimerArms) && gBroadcasts >= old(gBroadcasts)
 //@   loop 3: invariant [C15] @sameBase self.lastBlockTimestamp == ts
 //@   loop 3: invariant [C05,C07] @handedOver implies(view > 0, handedOver())
+//@   loop 3: invariant [C11] @seenMono implies(view > 0, seenMono())
 //@   loop 3: invariant [C05] @cachePurged implies(view == 0, cachePurged()) && implies(old(cachePurged()), cachePurged())
 //@   loop 4: use INV
 //@   loop 4: invariant self.ViewNumber >= view && implies(view > 0, sameHeight()) && heapMono() && inboxOK(msgs) && gTimerArms >= old(gTimerArms) && gBroadcasts >= old(gBroadcasts)
 //@   loop 4: invariant [C15] @sameBase self.lastBlockTimestamp == ts
 //@   loop 4: invariant [C05,C07] @handedOver implies(view > 0, handedOver())
+//@   loop 4: invariant [C11] @seenMono implies(view > 0, seenMono())
 //@   loop 4: invariant [C05] @cachePurged implies(view == 0, cachePurged()) && implies(old(cachePurged()), cachePurged())
 // A-VIEW / A-RTT: the timeout arithmetic is checked for overflow only under the view bound, a bounded RTT average and a non-zero last block time
 //@   wraps * unless aview() && 0 <= self.rttEstimates.avg && self.rttEstimates.avg <= 2305843009213693952 && self.lastBlockTime != tzero() && self.lastBlockIndex < 4294967295
@@ -789,6 +808,9 @@ package dbft
 //@   use U
 //@   requires tx != nil
 //@   ensures [C05] @quiescent implies(old(self.blockProcessed), quiet() && gBroadcasts == old(gBroadcasts))
+// C12: a requested transaction is taken (unless taking it moved the node to another view)
+//@   ensures [C12] @accepts implies(old(self.MyIndex >= 0 && !self.Config.WatchOnly() && self.MyIndex != self.PrimaryIndex && rsor() && !askedToLeave() && !locked() && gPrep == nil && !self.blockProcessed
+//@        && exists(k, 0, len(self.MissingTransactions), self.MissingTransactions[k] == tx.Hash())), self.ViewNumber > old(self.ViewNumber) || has(self.Transactions, tx.Hash()))
 //@   ensures [C11,C04,C02] @notRequested implies(forall(j, 0, old(len(self.MissingTransactions)), old(self.MissingTransactions[j]) != tx.Hash()), ignored())
 //@   ensures [C12] @answers implies(!old(has(self.Transactions, tx.Hash())) && has(self.Transactions, tx.Hash()) && self.ViewNumber == old(self.ViewNumber) && hasAllTx() && notWatchOnly() && !old(self.blockProcessed),
 //@        gBroadcasts > old(gBroadcasts))
@@ -814,9 +836,11 @@ package dbft
 //@ func (*DBFT).OnReceive
 //@   use U
 //@   requires msg != nil
-//@   ensures [C05] @quiescent implies(old(self.blockProcessed), quiet() && (gBroadcasts == old(gBroadcasts) || (msg.Type() == RecoveryRequestType && gLastBcast.Type() == RecoveryMessageType)))
-//@   ensures [C11] @badIndex implies(msg.ValidatorIndex() >= old(NN()), ignored() && unchanged(self.LastSeenMessage))
-//@   ensures [C11] @pastHeight implies(msg.ValidatorIndex() < old(NN()) && msg.Payload() != nil && msg.Height() < old(self.BlockIndex), ignored() && unchanged(self.LastSeenMessage))
+//@   ensures [C05] @quiescent implies(old(self.blockProcessed), quiet() && (gBroadcasts == old(gBroadcasts) || (msg.Type() == RecoveryRequestType && gLastBcast.Type() == RecoveryMessageType && gBroadcasts == old(gBroadcasts) + 1)))
+//@   ensures [C11] @badIndex implies(msg.ValidatorIndex() >= old(NN()), ignored() && unchanged(self.LastSeenMessage) && cacheSame())
+//@   ensures [C11] @pastHeight implies(msg.ValidatorIndex() < old(NN()) && msg.Payload() != nil && msg.Height() < old(self.BlockIndex), ignored() && unchanged(self.LastSeenMessage) && cacheSame())
+// C05: a payload for a later height is kept for that height
+//@   ensures [C05] @futureKept implies(msg.ValidatorIndex() < old(NN()) && msg.Payload() != nil && msg.Height() > old(self.BlockIndex), cached(msg))
 //@   ensures [C11] @wrongPrimary implies(msg.ValidatorIndex() < old(NN()) && msg.Payload() != nil && msg.Height() == old(self.BlockIndex) && msg.Type() == PrepareRequestType
 //@        && msg.ViewNumber() == old(self.ViewNumber) && msg.ValidatorIndex() != old(self.PrimaryIndex), ignored())
 //@   ensures [C11] @lowerView implies(msg.ValidatorIndex() < old(NN()) && msg.Payload() != nil && msg.Height() == old(self.BlockIndex)
@@ -869,7 +893,7 @@ package dbft
 //@ func (*DBFT).onRecoveryRequest
 //@   use U
 //@   requires admitted(msg)
-//@   ensures [C05] @onlyRecoveryReply quiet() && (gBroadcasts == old(gBroadcasts) || gLastBcast.Type() == RecoveryMessageType)
+//@   ensures [C05] @onlyRecoveryReply quiet() && (gBroadcasts == old(gBroadcasts) || (gLastBcast.Type() == RecoveryMessageType && gBroadcasts == old(gBroadcasts) + 1))
 //@ func (*DBFT).onRecoveryMessage
 //@   use U
 //@   use UNDECIDED
@@ -957,6 +981,7 @@ package dbft
 //@   requires cacheOK() && m != nil
 //@   ensures cacheOK() && heapMono()
 //@   ensures forall(k, implies(has(self.cache.mail, k), old(has(self.cache.mail, k)) || k == m.Height()))
+//@   ensures [C05] @stored cached(m)
 //@   modifies cache.mail, heap inbox.*
 //@ func (*rtt).addTime
 //@   requires 0 <= r.idx && r.idx < 70
